@@ -816,12 +816,18 @@ impl TypeEntry {
                         (variant_name, &variant.raw_name)
                     })
                     .unzip();
+                // The raw name is used as the format string of `write!` below:
+                // braces must be escaped or they are read as placeholders.
+                let fmt_strs = match_strs
+                    .iter()
+                    .map(|s| s.replace('{', "{{").replace('}', "}}"))
+                    .collect::<Vec<_>>();
 
                 quote! {
                     impl ::std::fmt::Display for #type_name {
                         fn fmt(&self, f: &mut ::std::fmt::Formatter<'_>) -> ::std::fmt::Result {
                             match *self {
-                                #(Self::#match_variants => write!(f, #match_strs),)*
+                                #(Self::#match_variants => write!(f, #fmt_strs),)*
                             }
                         }
                     }
